@@ -494,6 +494,10 @@ type ssaStyle struct {
 
 // newSSAStyleFromStyle returns an SSA style based on a Style
 func newSSAStyleFromStyle(i Style) *ssaStyle {
+	// A style may have no inline attributes
+	if i.InlineStyle == nil {
+		return &ssaStyle{name: i.ID}
+	}
 	return &ssaStyle{
 		alignment:       i.InlineStyle.SSAAlignment,
 		alphaLevel:      i.InlineStyle.SSAAlphaLevel,
@@ -1180,7 +1184,7 @@ func (s Subtitles) WriteToSSA(o io.Writer) (err error) {
 		return
 	}
 
-	var v4plus = s.Metadata.SSAScriptType == "v4.00+"
+	var v4plus = s.Metadata != nil && s.Metadata.SSAScriptType == "v4.00+"
 
 	// Write Styles block
 	if len(s.Styles) > 0 {
